@@ -110,22 +110,32 @@ OutcomeFails(ev) ==
 OutcomeClauses(ev) ==
   CASE ev.ev = "Query" -> {"C17.query_output_is_function_of_model", "C18.unfitted_use_raises_NotFittedError"}
     [] ev.ev = "CallHandle" -> {"C17.handed_out_objects_unaffected"}
-    [] ev.ev \in {"New", "SetParams", "Clone"} -> {"C18.get_params_returns_identical_objects"}
+    [] ev.ev \in {"New", "SetParams"} -> {"C18.get_params_returns_identical_objects"}
+    [] ev.ev = "Clone" -> {"C18.get_params_returns_identical_objects", "C18.clone_reproduces_an_unfitted_estimator"}
     [] ev.ev = "Pickle" -> {"C18.pickle_preserves_state"}
     [] OTHER -> {}
 
 Tag(S) == {c \o "@" \o ToString(l) : c \in S}
 
+(* clone / pickle round-trip must produce an object (sklearn.base.clone raises when a constructor does not store a       *)
+(* parameter as the identical object it was given): a raising Clone / Pickle ends the history, nothing changes            *)
+CopyRaised == Ev.ev \in {"Clone", "Pickle"} /\ Ev.exc # ""
 NextT ==
   /\ l <= Len(Traces[tid].events)
-  /\ \/ /\ Matches(Ev)
+  /\ \/ /\ CopyRaised
+        /\ UNCHANGED <<objs, handles, last>>
+        /\ fails' = fails \cup Tag({IF Ev.ev = "Clone" THEN "C18.clone_reproduces_an_unfitted_estimator"
+                                                      ELSE "C18.pickle_preserves_state"})
+     \/ /\ ~CopyRaised
+        /\ Matches(Ev)
         /\ fails' = fails \cup Tag(StateFails(objs', Ev.post, Ev.arrays, arr) \cup OutcomeFails(Ev)
                                    \* the reference value of a model term is the fit of a FRESH estimator constructed with the
                                    \* same parameters: a fit that differs from it also breaks "clone / set_params behave
                                    \* identically when fitted" (C18)
                                    \cup (IF Ev.ev \in {"Fit", "FitTransform"} /\ "C17.model_is_function_of_last_fit" \in StateFails(objs', Ev.post, Ev.arrays, arr)
                                          THEN {"C18.fit_equals_fit_of_fresh_estimator_with_same_parameters"} ELSE {}))
-     \/ /\ ~ENABLED Matches(Ev)
+     \/ /\ ~CopyRaised
+        /\ ~ENABLED Matches(Ev)
         /\ UNCHANGED <<objs, handles, last>>
         /\ fails' = fails \cup Tag({"TRACE.no_matching_action"})
   /\ ex' = ex \cup StateClauses \cup OutcomeClauses(Ev)
